@@ -47,6 +47,9 @@ def call_bias(case, perm=None):
     if perm is not None:
         p = np.array(perm)
         y, P = y[p], P[p]
+    if case.get("colnames") and len(case["preds"]) > 1:
+        P = pl.DataFrame({nm: P[:, k] for k, nm in enumerate(case["colnames"])})
+    if perm is not None:
         w = None if w is None else w[p]
         feat = None if feat is None else feat[p]
     try:
@@ -89,7 +92,8 @@ class C09(Prop):
     id = "C09"
     unique_answer = True
     rule = (
-        "data sets: dyadic y / predictions (1-3 models), weights none / integer / dyadic, all four functionals, dyadic levels; "
+        "data sets: dyadic y / predictions (1-3 models, also as polars frame with column names not in sorted order, and 11 "
+        "models where the default labels '10' < '2' sort differently), weights none / integer / dyadic, all four functionals, dyadic levels; "
         "feature none / numeric (None, NaN, +-inf, Int64, constant, all-null) / string, Categorical, Enum (names sorting after "
         "'other', nulls); all 10 bin methods; n_bins 2..12. The table is compared with the model row by row and in row order: "
         "feature value (bin mean or label), bias_mean, bias_count, bias_weights, bias_stderr = sqrt(model stderr^2), p_value = "
@@ -105,7 +109,7 @@ class C09(Prop):
         N = 1200 if tier == "quick" else 20000
         for k in range(N):
             n = rng.choice([1, 2, 3, 5, 8, 13, 30]) if rng.random() < 0.85 else rng.randint(31, 100)
-            nm = 1 if rng.random() < 0.7 else rng.randint(2, 3)
+            nm = 1 if rng.random() < 0.6 else rng.choice([2, 3, 3, 11])
             y = [rng.randint(-8, 16) / 4 for _ in range(n)]
             preds = [[v if rng.random() < 0.2 else rng.randint(-8, 16) / 4 for v in y] for _ in range(nm)]
             w = None if rng.random() < 0.4 else [rng.choice([1.0, 2.0, 3.0, 0.5, 0.25]) for _ in range(n)]
@@ -124,6 +128,9 @@ class C09(Prop):
             p = list(range(n))
             rng.shuffle(p)
             c["perm"] = p
+            from .decomp_common import gen_colnames
+
+            c["colnames"] = gen_colnames(rng, nm) if 2 <= nm <= 3 else None
             yield c
 
     def impl(self, case):
@@ -170,8 +177,9 @@ class C09(Prop):
             if len(rows_i) != len(mt["rows"]):
                 return f"model {m}: {len(rows_i)} rows vs model {len(mt['rows'])}"
             for k, (a, b) in enumerate(zip(rows_i, mt["rows"])):
-                if nm > 1 and a["model"] != str(m):
-                    return f"row {k}: model column {a['model']!r}, expected {str(m)!r}"
+                want_label = (case.get("colnames") or [str(q) for q in range(nm)])[m]
+                if nm > 1 and a["model"] != want_label:
+                    return f"row {k}: model column {a['model']!r}, expected {want_label!r}"
                 if case["fkind"] == "numeric":
                     fb = tc.cell_val(b["feat"])
                     fa = None if a["f"] is None else (math.nan if a["f"] == "nan" else float(a["f"]))
@@ -179,7 +187,7 @@ class C09(Prop):
                         fb = None
                     elif fb is None:
                         fb = math.nan
-                    if not feq(fa, fb):
+                    if not feq(fa, fb, 1e-6 if case["kind"] == "float32_nan" else 1e-9):  # float32 columns: polars' mean is float32
                         return f"model {m} row {k}: feature value {a['f']!r} vs model {fb!r}"
                 elif case["fkind"] == "string":
                     if a["f"] != b["key"]:
